@@ -65,6 +65,12 @@ CLAIMED["C10"] = {
     "note": "The four builds differ only in cargo features of the repository crates; the soft-keyword transformer's start_of_line under full-lexer is exercised through programs with comments before match/case/type lines (and by the generator's layout variants once attached).",
     "technique": "TLA+ product of two lexer machines model-checked by TLC (filter equivalence); differential replay of TLC-generated texts and programs across four feature builds",
 }
+CLAIMED["C03"] = {
+    "text": "The lexer machine's totality properties are checked by TLC for all texts within bounds and start offsets 0 and 400: Progress (every loop iteration consumes a character, queues a token or ends), ErrInBounds (error offsets inside [start, end] on a character boundary), CursorOK. TLC-generated inputs -- every class string <= 4/5 over five lexer alphabets (valid or not) and every token soup <= 4/5 over a 25-token alphabet -- are run through lex and parse in the three modes and parse_starts_at with offsets {0, 1, 400, 2^32-1-len} under catch_unwind (overflow checks on) with a watchdog: no panic, no overflow, no hang, error offset inside [start, start+len] on a character boundary; plus every single-token deletion/duplication/adjacent swap of the curated programs and 22 growth families (nesting depth and length n, 2n, 4n within a quadratic time envelope; depth 500 parsed and dropped on an 8 MiB stack).",
+    "design_ref": "DESIGN.md section 6 C03",
+    "note": "Polynomial time and stack depth are measured, not proved; 'every Unicode string' is represented by the class partition with seeded members; the LR automaton itself is exercised as a black box.",
+    "technique": "TLA+ lexer machine progress/error-envelope properties model-checked by TLC; TLC-generated class strings and token soups replayed through every entry mode and start offset under a panic/overflow/hang envelope; growth families",
+}
 NOT_YET = {}
 
 def main():
